@@ -40,7 +40,7 @@ def gen_base(rng, tier, index):
         # several seconds of idleness between calls (the caller does something else): the pool must still serve the next call
         pause = 6.5 if tier == "quick" else rng.choice([6.5, 12.0, 31.0])
         return {"pool": "factory" if index % 2 else "functor", "workers": 2, "quota": 2 if index % 2 else None, "wq": 1.0, "rq": None,
-                "no_sweep": True, "limit_factor": 3,
+                "no_sweep": True, "limit_factor": 3, "start": ["forkserver", "fork", "spawn"][(index // 40) % 3],
                 "calls": [{"ordered": True, "n": 6, "chunk": 1, "form": "list", "pause_after": pause},
                           {"ordered": False, "n": 7, "chunk": 2, "form": "gen", "pause_after": 0.5},
                           {"ordered": True, "n": 3, "chunk": 1, "form": "list"}]}
